@@ -138,7 +138,7 @@ theorem switch_nothing (reg : Registry) (f : Nat) (arg : Bytes) (all : List Node
 example :
     let c : Ctx := ({} : Ctx).setStatic (lit "x") (.int 5)
     (nodeCmp c (lit "x") (lit "5") false true .eq).1 = true ∧
-    (nodeCmp { c with err := some .userFail, brkD := 3, chJQ := true } (lit "x") (lit "5") false true .eq).1 = true ∧
+    (nodeCmp { c with err := some .userFail, brkD := 3, bnd := [.json] } (lit "x") (lit "5") false true .eq).1 = true ∧
     (nodeCmp c (lit "nope.f") (lit "5") false true .eq).1 = false := by decide
 
 end DyntplV.C02
